@@ -60,6 +60,7 @@ type decompressor struct {
 	err           error
 	peekSize      int
 	eof           bool
+	outputFull    bool // the last step ended because the output window was full
 }
 
 func (r *decompressor) Reset(under io.Reader, dict []byte) error {
@@ -76,6 +77,7 @@ func (r *decompressor) Reset(under io.Reader, dict []byte) error {
 
 	r.peekSize = 0
 	r.eof = false
+	r.outputFull = false
 	r.err = nil
 	// forget the previous stream's output: undelivered bytes must not be
 	// handed out, and its history must not be a legal match source.
@@ -131,6 +133,15 @@ func (f *decompressor) step() (err error) {
 		// the final block is decoded; only pending output is left to hand out,
 		// no further input is needed to report io.EOF
 		f.peekSize = 0
+	} else if state.input == nil && f.outputFull {
+		// The last step stopped because the output window was full, not for
+		// lack of input: the bits still held in the bit buffer may be all that
+		// is left of the stream, so go on with what is buffered and ask the
+		// source only if the decoder then runs out of input.
+		state.input, _ = f.rBuf.Peek(f.rBuf.Buffered())
+		f.peekSize = len(state.input)
+		f.eof = false
+		state.input = state.input[f.state.bitsLen/8:]
 	} else if state.input == nil {
 		// Wait only for the first byte that is not already held in the bit
 		// buffer, then take whatever the source has delivered so far: asking
@@ -159,6 +170,7 @@ func (f *decompressor) step() (err error) {
 
 	startInputSize, startBitsLen := len(f.state.input), int(f.state.bitsLen)
 	err = f.decomperss()
+	f.outputFull = err == errOutputOverflow
 	f.state.rOffset(startInputSize, startBitsLen)
 
 	if isError(err) || (err == errEndInput && f.eof) {
